@@ -20,7 +20,7 @@ THEOREMS = [P + t for t in (
     'C17_terminates', 'C17_ok_iff', 'C17_never_wrong', 'C17_depth_independent', 'C17_notfound', 'C17_notExist_only_if',
     'C17_otherwise', 'C17_cycle_real', 'C17_spec_reads_sentence', 'C17_stat_meets_spec', 'C17_open_meets_spec',
     'C17_readdir_follows_open', 'C17_open_then_stat', 'C17_outside', 'C17_outside_iff',
-    'C17_target_canonical', 'C17_stored_target', 'C17_loader_models_agree')]
+    'C17_target_canonical', 'C17_stored_target', 'C17_hardlink_target', 'C17_loader_models_agree')]
 
 
 def _hist(case):
@@ -52,13 +52,13 @@ def run(ctx):
                    'Lean compiler for the driver executable', 'pointer identity of *fileNode within one view = identity of the tree key',
                    'uuid marker of symlink.TargetOutsideRoot occurs in no segment of the inputs']
     ctx.assumptions = ['a view is a map from tree keys to nodes; only the FINAL path component is resolved (the code never resolves symlinked directories inside a path)',
-                       'entry names are clean relative paths; tar hard links (TypeLink, which the loader treats like symlinks) are not generated',
+                       'entry names are clean relative paths',
                        'the specification reads link names lexically (path.Clean), as the loader does']
     ctx.rule = ('TIERS: the exhaustive enumeration the property asks for ("every symlink graph on up to 5 named entries x every maximum depth 0..6") is the THOROUGH tier: '
-                '6+64+1000+20736+537824 = 559 630 graphs, each loaded 7 times (depths 0..6) and observed in both views (Stat, Open, ReadDir of every entry) — the graphs on <=4 names under each of the six config-history modes (130 836 cases), those on 5 names with the mode rotating over the enumeration — plus 20 000 random graphs and the corpus; '
+                'every graph on 1..3 names with options F D M X / relative symlink / absolute symlink / tar hard link to any entry (7+100+2197 graphs, each under all six config-history modes), every such graph on 4 names (16^4 = 65 536, history mode rotating), and every graph on 5 names with options F D M X / relative link / absolute link to any entry (14^5 = 537 824, history mode rotating, the absolute link written as an absolute symlink or as a hard link by a hash of the index); each loaded 7 times (depths 0..6) and observed in both views (Stat, Open, ReadDir of every entry); plus 20 000 random graphs and the corpus; '
                 'the QUICK tier is a seeded 3 000-graph sample plus the corpus and enumerates nothing exhaustively — an evidence file of tier quick does not claim the enumeration. '
                 'every case also fixes how the image\'s config history is written (H one entry per layer, E valid with empty-layer entries before/between/after so that views are observed on EMPTY chain layers, N none, S short, G one entry too many, X empty entries and a missing one: the last four take initializeChainLayers\' fallback branch) and, for 1 in 12 random cases, that the image is saved to a tarball and loaded with image.FromTarball instead of FromV1Image (FromRemoteName shares that path and needs a registry); the specification does not mention the history: the answers must be the same. '
-                'case = one symlink graph (entries: F file, D dir, M missing, X deleted by layer 1, L symlink, Y symlink deleted by layer 1) observed at depths 0..6 in both views; '
+                'case = one symlink graph (entries: F file, D dir, M missing, X deleted by layer 1, L symlink, Y symlink deleted by layer 1, H tar hard link — which the loader turns into a link node whose target is read from the image root) observed at depths 0..6 in both views; '
                 'thorough enumerates every graph on 1..5 names with relative and absolute canonical link spellings (6+64+1000+20736+537824 graphs; 5 names use the layout a,b,c,s/d,s/e); '
                 'random cases use up to 9 names in nested directories, 40% long chains, noisy/unclean/outside-root/empty link names. non-trivial = at least two symlink entries; '
                 'distinct = distinct case lines. oracle = specWalk verdict of the Lean driver (the sentence read strictly, on the graph whose links point where their names DENOTE by the specification\'s own lexical resolver) vs the implementation\'s Stat class, Open\'s own class and ReadDir\'s error class')
@@ -68,7 +68,7 @@ def run(ctx):
         proofs_ok = ctx.leanchecker('Scalibr.Properties.C17') and proofs_ok
 
     def nontrivial(case, fi, fm):
-        return sum(1 for _, k, _ in _entries(case) if k in 'LY') >= 2
+        return sum(1 for _, k, _ in _entries(case) if k in 'LYH') >= 2
 
     def oracle(case, fi, fm):
         if '_' in fi or '_' in fm:          # loaderr / panic / bad-op: nothing for the specification to judge
